@@ -1,6 +1,7 @@
 import AikenVerif.Lemmas.CekThreshold
 import AikenVerif.Props.C03
 import AikenVerif.Model.CostSpecTable
+import AikenVerif.Lemmas.CostNonneg
 /-!
 # C05 — execution budgets are exact: property theorems
 
@@ -278,6 +279,19 @@ theorem machine_costs_table :
     (∀ i, i < 9 → ∃ k, StepKind.ofTag i = some k) ∧
     Gen.unbudgetedLen = 10 :=
   ⟨ofTag_tag, ofTag_some, rfl⟩
+
+/-- the price hypotheses of `budget_suffices` follow from two DECIDABLE checks on the cost model
+(`stepsPositive`: every step kind priced, non-negative, ≥ 1 cpu; `builtinsNonneg`: no costing function
+with a negative coefficient or floor), which the driver evaluates on the cost models of the real
+evaluator (`costpos`, correspondence `c05-budget` / `c10-eval`).  So for those: succeeds iff cost ≤ budget. -/
+theorem budget_suffices_checked (cfg : Config) (h1 : stepsPositive cfg.costs = true)
+    (h2 : builtinsNonneg cfg.costs = true) (fuel : Nat) (budget : ExBudget) (t r : NTerm)
+    (hspec : Spec.run cfg.sem (denotation cfg.sem) fuel t = .done r)
+    (hle : ExBudget.le (programCost cfg.costs cfg.sem fuel t) budget) :
+    run cfg fuel budget t ≠ .oob ∧ run cfg fuel budget t ≠ .fail := by
+  have hp := posCosts_of_checks cfg.costs cfg.sem h1 h2
+  have hk := kindOK_sound cfg.costs .startUp (List.all_eq_true.mp h1 _ (mem_allKinds .startUp))
+  exact budget_suffices cfg hp.nonneg fuel budget t r ⟨hk.1, hk.2.1⟩ hspec hle
 
 /-- non-vacuity: a concrete program, cost model and two slippages for which the hypotheses hold -/
 example :
